@@ -1608,19 +1608,39 @@ namespace awkward {
         that.get()->classname() + std::string(" of size ") +
         std::to_string(content.get()->length()) + FILENAME(__LINE__));
     }
+    if (content.get()->length() != index.length()) {
+      throw std::invalid_argument(
+        std::string("cannot fit masked jagged slice with length ") +
+        std::to_string(index.length()) + std::string(" into ") +
+        that.get()->classname() + std::string(" of size ") +
+        std::to_string(content.get()->length()) + FILENAME(__LINE__));
+    }
+    int64_t numvalid = 0;
+    for (int64_t i = 0;  i < index.length();  i++) {
+      if (index.getitem_at_nowrap(i) >= 0) {
+        numvalid++;
+      }
+    }
     Index64 outputmask(index.length());
-    Index64 starts(index.length());
-    Index64 stops(index.length());
-    struct Error err = kernel::Content_getitem_next_missing_jagged_getmaskstartstop(
-      kernel::lib::cpu,   // DERIVE
-      index.data(),
-      jagged->offsets().data(),
-      outputmask.data(),
-      starts.data(),
-      stops.data(),
-      index.length());
-    util::handle_error(err, that.get()->classname(), nullptr);
-    ContentPtr tmp = content.get()->getitem_next_jagged(
+    Index64 starts(numvalid);
+    Index64 stops(numvalid);
+    Index64 validcarry(numvalid);
+    Index64 jaggedoffsets = jagged->offsets();
+    int64_t k = 0;
+    for (int64_t i = 0;  i < index.length();  i++) {
+      if (index.getitem_at_nowrap(i) < 0) {
+        outputmask.setitem_at_nowrap(i, -1);
+      }
+      else {
+        outputmask.setitem_at_nowrap(i, k);
+        validcarry.setitem_at_nowrap(k, i);
+        starts.setitem_at_nowrap(k, jaggedoffsets.getitem_at_nowrap(k));
+        stops.setitem_at_nowrap(k, jaggedoffsets.getitem_at_nowrap(k + 1));
+        k++;
+      }
+    }
+    ContentPtr valid = content.get()->carry(validcarry, false);
+    ContentPtr tmp = valid.get()->getitem_next_jagged(
         starts, stops, jagged->content(), tail);
     IndexedOptionArray64 out(Identities::none(), util::Parameters(), outputmask, tmp);
     return std::make_shared<RegularArray>(
@@ -1910,9 +1930,9 @@ namespace awkward {
   const ContentPtr
   Content::getitem_next_array_wrap(const ContentPtr& outcontent,
                                    const std::vector<int64_t>& shape) const {
-    int64_t length = 0;
-    if (shape.size() >= 2) {
-      length = (int64_t)shape[shape.size() - 2];
+    int64_t length = 1;
+    for (size_t j = 0;  j + 1 < shape.size();  j++) {
+      length *= (int64_t)shape[j];
     }
     ContentPtr out =
       std::make_shared<RegularArray>(Identities::none(),
@@ -1921,9 +1941,9 @@ namespace awkward {
                                      (int64_t)shape[shape.size() - 1],
                                      length);
     for (int64_t i = (int64_t)shape.size() - 2;  i >= 0;  i--) {
-      int64_t length = 0;
-      if (i > 0) {
-        length = (int64_t)shape[(size_t)(i - 1)];
+      int64_t length = 1;
+      for (int64_t j = 0;  j < i;  j++) {
+        length *= (int64_t)shape[(size_t)j];
       }
       out = std::make_shared<RegularArray>(Identities::none(),
                                            util::Parameters(),
